@@ -17,7 +17,7 @@ from ..models import padding as pm
 ID = "C06"
 LEVEL = "exploration"
 NEEDS_PTY = True
-N_DRAWS = {"quick": 90, "thorough": 3500}
+N_DRAWS = {"quick": 90, "thorough": 20000}
 RULE = (
     "real draw() calls on the pty, both APIs: synthetic renderables (text, SGR, ECH+CUF; 1..6 frames and "
     "INDEFINITE) and Block/Kitty/ITerm2 images (stills and generated 2..4-frame GIF/WebP animations) per "
